@@ -353,7 +353,8 @@ class Project:
       if k_t:
         self.inlined.append(f'{k_t} single-assignment local(s) substituted')
       if hp and expand.get('temps'):
-        ks = sum(normalise.sink_selected_calls(f.node) for f in fns)
+        ks = sum(normalise.sink_selected_calls(f.node) +
+                 normalise.dispatch_table_calls(f.node) for f in fns)
         if ks:
           self.inlined.append(f'{ks} call(s) through a selected function '
                               'written at the selection')
